@@ -636,7 +636,10 @@ def _parse_xsd_date_tzinfo(value: str) -> Optional[datetime.tzinfo]:
         return None
     if value == "Z":
         return datetime.timezone.utc
-    return datetime.timezone(datetime.timedelta(hours=int(value[1:3]), minutes=int(value[4:6]))
+    hours, minutes = int(value[1:3]), int(value[4:6])
+    if minutes > 59 or hours * 60 + minutes > 14 * 60:
+        raise ValueError("Time zone offset is not in the range -14:00 to +14:00 allowed by XSD")
+    return datetime.timezone(datetime.timedelta(hours=hours, minutes=minutes)
                              * (-1 if value[0] == '-' else 1))
 
 
